@@ -1,6 +1,7 @@
 SPECIFICATION Spec
 CONSTANTS
   Scen1 <- ScenB1T
+  ScenBusy <- NoBusy
   Scen2 <- ScenB2T
   ClearChoices = {TRUE, FALSE}
   Installs = {TRUE, FALSE}
